@@ -4,6 +4,8 @@ import (
 	"bufio"
 	"encoding/binary"
 	"fmt"
+	"runtime"
+	"strings"
 	"sync"
 	"time"
 
@@ -32,14 +34,23 @@ func (d *recDiag) Errors() []string {
 	return append([]string(nil), d.errs...)
 }
 
-// agentOut is the agent's output writer.  It counts completed Write calls (agent.WriteMessage makes
-// exactly two per frame) so that a misbehaving handler can put raw bytes on the wire at a frame
-// boundary, after everything it handed to the agent before has been written.
+// agentOut is a writer in front of one of the pipes (the agent's output; also the server's output).  It counts
+// completed Write calls - agent.WriteMessage makes exactly two per frame, header then body - so that
+//   - a misbehaving handler / the driver can put raw bytes on the wire at a frame boundary,
+//   - the header write of a chosen frame can be HELD: its bytes are in the pipe, the call does not return until
+//     released (a pipe to a busy peer holds a writer just like that).  Whoever else writes meanwhile goes through:
+//     with a single writer per direction nobody does.
 type agentOut struct {
 	p     *fragPipe
 	mu    sync.Mutex
 	cond  *sync.Cond
 	calls int
+	// holdFrame > 0: hold the header write of that frame (1-based); holding: it is being held;
+	// others: Write calls that completed while it was held
+	holdFrame int
+	holding   bool
+	released  bool
+	others    int
 }
 
 func (o *agentOut) Write(b []byte) (int, error) {
@@ -47,7 +58,21 @@ func (o *agentOut) Write(b []byte) (int, error) {
 	defer o.mu.Unlock()
 	n, err := o.p.Write(b)
 	o.calls++
+	if o.holding {
+		o.others++
+	}
 	o.cond.Broadcast()
+	if o.holdFrame > 0 && o.calls == 2*o.holdFrame-1 && !o.holding {
+		o.holding = true
+		o.cond.Broadcast()
+		for !o.released {
+			o.cond.Wait()
+		}
+		o.holding = false
+		o.holdFrame = 0
+		o.released = false
+		o.cond.Broadcast()
+	}
 	return n, err
 }
 func (o *agentOut) Close() error { return o.p.Close() }
@@ -60,6 +85,50 @@ func (o *agentOut) afterFrames(frames int, f func()) {
 		o.cond.Wait()
 	}
 	f()
+}
+
+// atBoundary runs f with the writer locked at a moment when no frame is half written.
+func (o *agentOut) atBoundary(f func()) {
+	o.mu.Lock()
+	defer o.mu.Unlock()
+	for o.calls%2 != 0 {
+		o.cond.Wait()
+	}
+	f()
+}
+
+// holdHeaderOfNext: once everything handed over so far (frames) is written, arm the hold for the next frame.
+func (o *agentOut) holdHeaderOfNext(frames int) {
+	o.afterFrames(frames, func() { o.holdFrame = frames + 1; o.released = false; o.others = 0 })
+}
+
+// waitHolding blocks until the armed header write is being held; false after the deadline.
+func (o *agentOut) waitHolding(d time.Duration) bool {
+	t := time.AfterFunc(d, func() { o.mu.Lock(); o.cond.Broadcast(); o.mu.Unlock() })
+	defer t.Stop()
+	start := time.Now()
+	o.mu.Lock()
+	defer o.mu.Unlock()
+	for !o.holding {
+		if time.Since(start) > d {
+			return false
+		}
+		o.cond.Wait()
+	}
+	return true
+}
+
+func (o *agentOut) othersWhileHeld() int {
+	o.mu.Lock()
+	defer o.mu.Unlock()
+	return o.others
+}
+
+func (o *agentOut) release() {
+	o.mu.Lock()
+	o.released = true
+	o.cond.Broadcast()
+	o.mu.Unlock()
 }
 
 type sessOpts struct {
@@ -80,6 +149,8 @@ type session struct {
 	toAgent   *fragPipe
 	fromAgent *fragPipe
 	out       *agentOut
+	srvOut    *agentOut // the server's writer in front of toAgent (frame boundaries of that direction)
+	strayKA   int       // keepalive requests the driver put into the server->agent stream
 	ag        *agent.Agent
 	h         *echoHandler
 	diag      *recDiag
@@ -102,6 +173,8 @@ func newSession(o sessOpts) *session {
 	s.fromAgent = newFragPipe(o.FragFrom)
 	s.out = &agentOut{p: s.fromAgent}
 	s.out.cond = sync.NewCond(&s.out.mu)
+	s.srvOut = &agentOut{p: s.toAgent}
+	s.srvOut.cond = sync.NewCond(&s.srvOut.mu)
 	s.ag = agent.New(s.toAgent, s.out)
 	s.h = &echoHandler{a: s.ag, pad: o.Pad, wants: o.Wants, provides: o.Provides, fault: o.Fault, noClone: o.NoClone}
 	s.h.raw = func(b []byte) {
@@ -117,7 +190,7 @@ func newSession(o sessOpts) *session {
 	go func() { s.agentDone <- s.ag.Wait() }()
 	var abortOnce, killOnce sync.Once
 	// production wiring (UDFSocket.Open / UDFProcess.Open): a bufio.Reader around the peer's output
-	s.srv = udf.NewServer("task", "node", bufio.NewReader(s.fromAgent), s.toAgent, s.diag, o.Timeout,
+	s.srv = udf.NewServer("task", "node", bufio.NewReader(s.fromAgent), s.srvOut, s.diag, o.Timeout,
 		func() {
 			abortOnce.Do(func() { close(s.aborted) })
 			s.pumpMu.Lock()
@@ -198,4 +271,41 @@ func (s *session) keepalives() int {
 		off += k + int(size)
 	}
 	return n
+}
+
+// inject puts a request of the driver's own into the server->agent byte stream, between two frames of the server.
+func (s *session) inject(kind string) {
+	var req *agent.Request
+	switch kind {
+	case "empty":
+		req = &agent.Request{} // marshals to zero bytes: the frame is the single byte 0x00
+	case "keepalive":
+		req = &agent.Request{Message: &agent.Request_Keepalive{Keepalive: &agent.KeepaliveRequest{Time: 42}}}
+		s.strayKA++
+	default:
+		panic("inject " + kind)
+	}
+	b, err := proto.Marshal(req)
+	if err != nil {
+		panic(err)
+	}
+	s.srvOut.atBoundary(func() { s.toAgent.Write(frame(b)) })
+}
+
+// readLoopParked reports whether a goroutine of the agent library sits in (*Agent).readLoop itself (not in handler
+// code below it) blocked on a channel send: it has decoded a request whose response it wants to hand to the
+// agent's single writer goroutine, which is busy.  A scheduling gate only - never a verdict.
+func readLoopParked() bool {
+	buf := make([]byte, 1<<20)
+	n := runtime.Stack(buf, true)
+	for _, g := range strings.Split(string(buf[:n]), "\n\n") {
+		lines := strings.Split(g, "\n")
+		if len(lines) < 2 || !strings.Contains(lines[0], "[chan send") {
+			continue
+		}
+		if strings.Contains(lines[1], "udf/agent.(*Agent).readLoop") {
+			return true
+		}
+	}
+	return false
 }
